@@ -96,11 +96,11 @@ ProvOk(s, ev) == \A i \in 1..Len(ev.an) :
 \* (cl.send precedes the lookup, the hook's stored instant is the proxy's own)
 TtlOk(s, ev) == \A i \in 1..Len(ev.an) :
                    LET a == ev.an[i] IN
-                   (a.tok # 0 /\ a.tok \in DOMAIN upsent) =>
+                   (a.tok # 0 /\ a.tok \in DOMAIN upsent /\ i <= Len(upsent[a.tok].ttls)) =>
                       LET up == upsent[a.tok].ttls[i]
                           st == StoreOfTok(stores, a.tok)
                           el == IF st.found /\ s.t > st.stored + 2 THEN (s.t - st.stored - 2) \div 1000 ELSE 0
-                      IN Le32(a.ttl, <<0, IF up > el THEN up - el ELSE 1>>) \/ ~(i <= Len(upsent[a.tok].ttls))
+                      IN Le32(a.ttl, <<0, IF up > el THEN up - el ELSE 1>>)
 
 \* C08: nothing is served from cache later than lifetime + 2 s after it was stored
 ExpiryOk(s, ev) == \A i \in 1..Len(ev.an) :
